@@ -13,3 +13,44 @@ package keeper
 //@ ensures [only_governance_authority] err == nil ==> msg.Authority == k.Keeper.authority
 //@ ensures [rejected_request_changes_nothing] msg.Authority != k.Keeper.authority ==> err != nil && nothing_written()
 //@ ensures [sets_limit] err == nil ==> bridge.SnapshotLimit.Limit == msg.Limit
+
+// ---- bridge deposits (C14, C03, C04) ----
+// ret(F, i) is the i-th result of the call of F made by the function; 43200000000000 ns = 12 hours.
+
+//@ func (k Keeper).ClaimDeposit(ctx, depositId, reportIndex, msgSender) (err)
+//@ requires [claimer_and_recipient_are_not_the_bridge_account] acc(msgSender) != module("bridge")
+//@ modifies bridge.DepositIdClaimedMap, bank.bal, bank.supply
+//@ ensures [a_deposit_is_claimed_at_most_once] old(has(bridge.DepositIdClaimedMap, depositId)) && old(bridge.DepositIdClaimedMap[depositId].Claimed) ==> err != nil && nothing_written()
+//@ ensures [claimed_deposit_is_marked] err == nil ==> has(bridge.DepositIdClaimedMap, depositId) && bridge.DepositIdClaimedMap[depositId].Claimed
+//@ ensures [no_other_deposit_is_marked] forall j int :: j != depositId ==> bridge.DepositIdClaimedMap[j] == old(bridge.DepositIdClaimedMap[j]) && has(bridge.DepositIdClaimedMap, j) == old(has(bridge.DepositIdClaimedMap, j))
+//@ ensures [flagged_aggregate_never_claimable] err == nil ==> ret(GetAggregateByIndex, 0) != nil && !ret(GetAggregateByIndex, 0).Flagged
+//@ ensures [power_reached_threshold_at_report_time] err == nil ==> ret(GetAggregateByIndex, 0).ReporterPower >= ret(GetValidatorCheckpointParamsFromStorage, 0).PowerThreshold
+//@ ensures [report_at_least_twelve_hours_old] err == nil ==> blocktime(ctx) - ret(GetAggregateByIndex, 1) >= 43200000000000
+//@ ensures [mints_exactly_the_decoded_amount] err == nil ==> bank.supply == old(bank.supply) + coins(ret(DecodeDepositReportValue, 1))
+//@ ensures [nothing_minted_on_failure_before_mint] err != nil && bank.supply != old(bank.supply) ==> bank.supply == old(bank.supply) + coins(ret(DecodeDepositReportValue, 1))
+//@ ensures [bridge_account_keeps_nothing] err == nil && acc(ret(DecodeDepositReportValue, 0)) != module("bridge") ==> bank.bal[module("bridge")] == old(bank.bal[module("bridge")])
+
+// ---- bridge withdrawals (C14, C03, C19) ----
+
+//@ func (k Keeper).WithdrawTokens(ctx, amount, sender, recipient) (id, err)
+//@ requires [sender_is_not_the_bridge_account] acc(sender) != module("bridge")
+//@ requires [positive_amount] amount.Amount > 0
+//@ requires [bonded_total_fits_uint64] staking.bonded < 18446744073709551616
+//@ requires [withdrawal_id_below_max] has(bridge.WithdrawalId) ==> bridge.WithdrawalId.Id < 18446744073709551615
+//@ modifies bank.bal, bank.supply, bridge.WithdrawalId, oracle.Nonces, oracle.Aggregates
+//@ ensures [burns_exactly_the_requested_amount] err == nil ==> bank.supply == old(bank.supply) - amount.Amount
+//@ ensures [sender_pays_exactly_the_amount] err == nil ==> bank.bal[acc(sender)] == old(bank.bal[acc(sender)]) - amount.Amount
+//@ ensures [bridge_account_keeps_nothing] err == nil ==> bank.bal[module("bridge")] == old(bank.bal[module("bridge")])
+//@ ensures [other_accounts_untouched] forall a addr :: a != acc(sender) && a != module("bridge") ==> bank.bal[a] == old(bank.bal[a])
+//@ ensures [fresh_strictly_increasing_id] err == nil ==> id == (old(has(bridge.WithdrawalId)) ? old(bridge.WithdrawalId.Id) + 1 : 1) && has(bridge.WithdrawalId) && bridge.WithdrawalId.Id == id
+//@ ensures [aggregate_published_under_the_withdrawal_query] err == nil ==> called(SetAggregate) && arg(SetAggregate, report) == ret(CreateWithdrawalAggregate, 0) && arg(CreateWithdrawalAggregate, withdrawalId) == id && arg(CreateWithdrawalAggregate, amount) == amount
+
+//@ func (k msgServer).WithdrawTokens(goCtx, msg) (resp, err)
+//@ requires [msg_present] msg != nil
+//@ requires [signer_is_not_the_bridge_account] addrstr(msg.Creator) != module("bridge")
+//@ requires [bonded_total_fits_uint64] staking.bonded < 18446744073709551616
+//@ requires [withdrawal_id_below_max] has(bridge.WithdrawalId) ==> bridge.WithdrawalId.Id < 18446744073709551615
+//@ modifies bank.bal, bank.supply, bridge.WithdrawalId, oracle.Nonces, oracle.Aggregates
+//@ ensures [only_the_signer_pays] forall a addr :: a != addrstr(msg.Creator) && a != module("bridge") ==> bank.bal[a] == old(bank.bal[a])
+//@ ensures [signer_pays_exactly_the_amount] err == nil ==> bank.bal[addrstr(msg.Creator)] == old(bank.bal[addrstr(msg.Creator)]) - msg.Amount.Amount && bank.supply == old(bank.supply) - msg.Amount.Amount
+//@ ensures [only_positive_loya_amounts] err == nil ==> msg.Amount.Amount > 0 && msg.Amount.Denom == "loya"
